@@ -4,10 +4,15 @@ from framework.registry import target, job, PROPS, COMMON_ASSUME
 # C02 the AMG cycle is a fixed linear, symmetric positive, contracting operator
 # ---------------------------------------------------------------------------
 target('c02', ['harness/c02_cycle.cpp'])
+# the same source on the block-valued backend builtin<static_matrix<double,BS,BS>> (monitors 1, 2, 3, 5)
+target('c02b2', ['harness/c02_cycle.cpp'], flags=['-DVF_BS=2'])
+target('c02b3', ['harness/c02_cycle.cpp'], flags=['-DVF_BS=3'])
 def c02_jobs(tier):
     q = tier == 'quick'
     return [job('cycle-plain-t1', 'c02', 'plain', threads=1, shards=12 if q else 14, timeout=3600 if q else 7200),
-            job('cycle-asan-t1', 'c02', 'asan', threads=1, shards=4, args=['--stride=7' if q else '--stride=11'], timeout=3600 if q else 7200)]
+            job('cycle-asan-t1', 'c02', 'asan', threads=1, shards=4, args=['--stride=7' if q else '--stride=11'], timeout=3600 if q else 7200),
+            job('block2-plain-t1', 'c02b2', 'plain', threads=1, shards=4 if q else 8, timeout=3600 if q else 7200),
+            job('block3-plain-t1', 'c02b3', 'plain', threads=1, shards=4 if q else 8, args=['--stride=2'] if q else [], timeout=3600 if q else 7200)]
 PROPS['C02'] = dict(
     level='exploration', jobs=c02_jobs,
     rule='cycle: (matrix rep) x 4 coarsenings x 9 relaxations with random npre/npost 1-3, ncycle 1-2, pre_cycles 1-2, coarse_enough, max_levels, direct_coarse (component parameters randomised from the second matrix on); spd: (matrix rep) x 4 coarsenings x 7 symmetric smoothers x {V,W}, npre = npost; scaling: (matrix rep) x 4 coarsenings x 8 relaxations (ILUT excluded) x 4 exponents incl. odd ones. Matrices: G1 grid diffusion (2D 5/9-point, 3D, anisotropy to 1e-3, contrast to 1e3) and connected G2 graph Laplacians, 40 <= n <= 300, each validated in the harness to be a symmetric irreducibly diagonally dominant M-matrix. A case is non-trivial when the hierarchy has at least two levels; distinct = distinct (sub-check, descriptor) hash.',
@@ -18,4 +23,4 @@ PROPS['C02'] = dict(
                                  'the smoother maps M_pre, M_post and the coarse solve used by the dense reference are extracted from the live smoother / solver objects (their own definitions are C06 / C16)'],
     technique='column-by-column extraction of the dense operator B of amg::apply; bitwise differential (history, power-of-two scaling), forward-bound linearity monitor, dense long-double reference of the documented recursion built from the level list read through the AMGCL_VERIF accessor, symmetric eigen-decomposition (Eigen) of B and of L^T B L; repeated under ASan/UBSan on a sample',
     level_text='For every coarsening x relaxation cell the real amg::apply is executed on unit vectors and B is compared (a) with itself after 200 further applications (bitwise), (b) with superposition, (c) with a long-double evaluation of the documented recursion assembled from the live level list, (d) for the symmetric smoothers with its transpose and the interval (0,2) for the spectrum of BA, (e) bitwise with the action for 2^k-scaled matrices. Held means no monitored execution violated an oracle.',
-    level_note='n <= 300 only (dense extraction); scalar double builtin backend only; block value types and other backends are not exercised by this check (C13 covers their equivalence)')
+    level_note='n <= 300 only (dense extraction); builtin backend with double and static_matrix<double,2,2 / 3,3> values (item 4 only for scalar values: its domain is M-matrices); other backends are not exercised')
